@@ -127,9 +127,11 @@ func (Engine) RunOne(t *core.Tape, prop, tier string, info *core.RunInfo) *core.
 		case 1:
 			if n >= 2 {
 				j := (i + 1 + t.Intn("byz.dealer", n-1)) % n
-				posted[i].S.V, posted[j].S.V = posted[j].S.V, posted[i].S.V
-				encTouched[i], encTouched[j] = true, true
-				info.ByzFired("dealer:enc-shares-swapped")
+				if !posted[i].S.V.Equal(posted[j].S.V) { // swapping equal values (zero secret, t=1) alters nothing
+					posted[i].S.V, posted[j].S.V = posted[j].S.V, posted[i].S.V
+					encTouched[i], encTouched[j] = true, true
+					info.ByzFired("dealer:enc-shares-swapped")
+				}
 			}
 		case 2:
 			posted[i].P.C = g.Scalar().Add(posted[i].P.C, g.Scalar().One())
